@@ -152,22 +152,30 @@ def lean_build(prop, thorough=False):
     if hits:
         out["failing"] = ["forbidden construct: " + h for h in hits]
         return out
-    audit = LEAN / ".lake" / f"audit_{prop}.lean"
-    audit.write_text(
-        "".join(f"import {m}\n" for m in mods)
-        + "".join(f"#print axioms SR.{prop}.{t}\n" for t in thms)
-    )
-    rc, log = run(["lake", "env", "lean", str(audit)], cwd=LEAN)
-    if rc != 0:
-        out["failing"] = ["audit: " + log[-2000:]]
-        return out
-    for m in re.finditer(
-        r"'SR\.%s\.([^']+)' (does not depend on any axioms|depends on axioms: \[([^\]]*)\])"
-        % prop,
-        log,
-    ):
-        axs = [a.strip() for a in (m.group(3) or "").replace("\n", " ").split(",") if a.strip()]
-        out["axioms"][m.group(1)] = axs
+    # One audit per property module (independently written modules may declare helper lemmas of the same
+    # name, so they cannot always be imported together), run in parallel.
+    from concurrent.futures import ThreadPoolExecutor
+
+    def audit_one(path):
+        text = strip_comments(path.read_text())
+        names = re.findall(r"^theorem\s+([A-Za-z0-9_'.]+)", text, flags=re.M)
+        audit = LEAN / ".lake" / f"audit_{path.stem}.lean"
+        audit.write_text(f"import SRVerif.Properties.{path.stem}\n"
+                         + "".join(f"#print axioms SR.{prop}.{t}\n" for t in names))
+        return run(["lake", "env", "lean", str(audit)], cwd=LEAN)
+
+    with ThreadPoolExecutor(8) as ex:
+        results = list(ex.map(audit_one, property_files(prop)))
+    for rc, log in results:
+        if rc != 0:
+            out["failing"] = ["audit: " + log[-2000:]]
+            return out
+        for m in re.finditer(
+            r"'SR\.%s\.(\S+)' (does not depend on any axioms|depends on axioms: \[([^\]]*)\])" % prop,
+            log,
+        ):
+            axs = [a.strip() for a in (m.group(3) or "").replace("\n", " ").split(",") if a.strip()]
+            out["axioms"][m.group(1)] = axs
     bad = {t: a for t, a in out["axioms"].items() if not set(a) <= ALLOWED_AXIOMS}
     missing = [t for t in thms if t not in out["axioms"]]
     if bad or missing:
